@@ -26,13 +26,14 @@ static void init_state(cb_t *b, unsigned char base, size_t *rec_start, size_t *r
   for (size_t i = 0; i < NN; i++) if (i < b->f0) { SLOT(b, i).id = base + i; LEDGER[base + i] = LIVE; }
 }
 #ifndef FAULTS
-#define FAULTS 0          /* 0: any of the scenario's fault kinds; 1: destructor faults only (C05); 2: user-code faults only (C06) */
+#define FAULTS 0          /* 0: any of the scenario's fault kinds; 1: destructor faults only (C05); 2: user-code faults only (C06); 3: none */
 #endif
 static void choose_fault(unsigned k1, unsigned k2) {
   unsigned k = nondet_unsigned();
   __CPROVER_assume(k == F_NONE || k == k1 || k == k2);
   if (FAULTS == 1) __CPROVER_assume(k == F_NONE || k == F_DROP);
   if (FAULTS == 2) __CPROVER_assume(k != F_DROP);
+  if (FAULTS == 3) __CPROVER_assume(k == F_NONE);      /* functional cross-check only */
   FAULT_KIND = k; FAULT_AT = nondet_unsigned();
   __CPROVER_assume(FAULT_AT <= 3 * NN + 4);
   CEX_kind = FAULT_KIND; CEX_at = FAULT_AT;
@@ -306,6 +307,7 @@ int main() {
   no_bad_drop(); check_valid(&b);
   WIT(panicked, "[drop] a destructor panic (un-yielded drained element) is reachable");
   WIT(panicked && rb < size0 && ra > 0, "[drop] a destructor panic with a hole in the middle is reachable");
+  WIT(!panicked && ra > 0 && rb < size0 && ia > ra, "[any] a partly consumed drain with a hole in the middle is reachable");
   for (size_t i = 0; i < NN; i++) if (i < b.f0) {
     unsigned char id = SLOT(&b, i).id;
     PROP(!(id >= ra && id < rb), "a drained element is never visible afterwards");
